@@ -5,6 +5,11 @@ ROOT = os.path.dirname(os.path.dirname(os.path.abspath(__file__)))
 BASE_OFF = "cd /repo && env -u BUIDL_VERIF_TRACE /venv/bin/python -m pytest -ra -q -p no:cacheprovider --timeout=900 --continue-on-collection-errors"
 
 CLAIMED = {
+ "C17": dict(
+   text="With free-constructor hashes TLC checks, for every block size up to a bound and every subset of matched transactions, that the BIP37 proof built by the specification's prover validates in the verifier walk (written like MerkleTree.populate_tree) and yields exactly the matched ids in order, and explores an adversary submitting arbitrary flags/hashes from the tree's node hashes plus a foreign value: whenever the proof validates against the true root only leaves are proved. Every exported proof is concretised with hashlib and replayed through MerkleBlock.parse/is_valid/proved_txs; merkle roots, every single-bit alteration of hashes/flags/count/root and dropped/extra hashes of sampled proofs (trees up to 5000 leaves), compact bits <-> target, proof-of-work, retargeting across the clamps and header chains are decided by TLC.",
+   design="3/C17",
+   note="Trusted: TLC, Merkle.tla (BIP37 prover/verifier, consensus PoW arithmetic), hashlib for hash256; the harness prover used for trees above the exhaustive bound is checked against every TLC-exported proof. Lying about the transaction count (inherent BIP37 weakness) is only examined for single-bit alterations.",
+   technique="TLA+ prover/verifier specification: TLC exhaustive proofs + adversary model checking, exported proofs replayed into code, TLC validation of recorded calls"),
  "C09": dict(
    text="TLC proves by linearity of the BCH checksum that every one- and two-character substitution within 90 symbols is detected under both the Bech32 and Bech32m constants (including corruptions that flip the witness version between 0 and non-zero); recorded Base58/Base58Check calls (payloads 0..82 bytes with leading-zero runs, altered candidate strings), segwit address encode/decode for every witness version x program length x network, every single and sampled double substitution of sampled addresses, the five scriptPubKey templates x four networks through address()/address_to_script_pubkey/TxOut.to_address, and WIF are decided by TLC evaluating Addr.tla.",
    design="3/C09",
